@@ -41,7 +41,7 @@ import re
 from mirlib import closures_created_in, BranchFacts, strip, deep_strip, show, walk, const_value
 from rulelib import (
     bool_facts, cyclic_blocks, dominating_edges, facts_at, fmt_path, must_pass, names_in_term, outcome_facts, relations, return_assignments,
-    succeeded_calls,
+    succeeded_calls, canon_nobb, call_bb_of,
 )
 
 V = "dnssec::validator::"
@@ -86,6 +86,9 @@ def run(ctx):
     rule_wild(ctx, F)
     rule_every(ctx, F)
     rule_nosoa(ctx, F)
+    rule_nsigner(ctx, F)
+    rule_wildce(ctx, F)
+    rule_sigttl(ctx, F)
 
 
 def rule_sig(ctx, F):
@@ -745,3 +748,159 @@ def rule_nosoa(ctx, F):
                "validate_msg answers Bogus when a NODATA/NXDOMAIN reply carries no SOA without ever looking up the chain of "
                "trust for the name: an empty negative reply for a name below an insecure delegation is reported bogus "
                "instead of insecure", b.where(bi))
+
+
+def _eq_facts(b, bb, F):
+    """[(lhs, rhs)] of every dominating fact `lhs == rhs` (any spelling: ==, !=, eq, ne, name_eq)."""
+    out = []
+    for tm, v in bool_facts(b, bb, F):
+        if tm[0] == "call" and tm[1] and re.search(r"::(eq|name_eq)$", tm[1]) and v is True and len(tm[3]) >= 2:
+            out.append((tm[3][0], tm[3][1]))
+        if tm[0] == "bin" and tm[1] == "Eq" and v is True:
+            out.append((tm[2], tm[3]))
+    return out
+
+
+def _has_call(t, rx):
+    return any(s[0] == "call" and s[1] and re.search(rx, s[1]) for s in walk(t))
+
+
+def _arg_roots(t):
+    return {s[1] for s in walk(t) if s[0] == "arg"}
+
+
+def rule_nsigner(ctx, F):
+    """A denial record is used only if it was signed by exactly the zone the proof is about: both
+    get_checked_nsec and get_checked_nsec3 hand out a record only under `group.signer_name() ==
+    signer_name` (equality -- an ancestor's or descendant's NSEC/NSEC3 says nothing about this zone)."""
+    R = "C14.nsigner"
+    ctx.floor(R, 2)
+    for fn in ("get_checked_nsec", "get_checked_nsec3"):
+        b = F.one_body(r"^dnssec::validator::nsec::%s$" % fn)
+        if not ctx.anchor(R, fn, b):
+            continue
+        sites = []
+        for bi in b.reachable_blocks():
+            if b.blocks[bi].get("c"):
+                continue
+            for st in b.blocks[bi]["s"]:
+                if st[0] == "=" and st[2][0] == "agg" and st[2][1][0] == "adt" and st[2][1][1] == "core::option::Option" \
+                        and "Some" in str(st[2][1][2:]):
+                    sites.append(bi)
+        if not ctx.anchor(R, "%s hands out a record (Some)" % fn, len(sites) >= 1, b.where()):
+            continue
+        for bi in sites:
+            ok = False
+            for l, r in _eq_facts(b, bi, F):
+                for x, y in ((l, r), (r, l)):
+                    if _has_call(x, r"::signer_name$") and 1 in _arg_roots(x) and _arg_roots(y) == {2} and not _has_call(y, r"."):
+                        ok = True
+            ctx.ob(R, b, "a denial record is handed out only if its signer equals the expected signer", ok,
+                   "%s returns a record without the test `group.signer_name() == signer_name` (equality) in front of it: an NSEC/"
+                   "NSEC3 record signed by another zone (the parent above a cut, a child below it) is accepted as a proof about "
+                   "this zone" % fn, b.where(bi))
+
+
+def rule_wildce(ctx, F):
+    """check_not_exists_for_wildcard: every positive verdict depends on the closest encloser the
+    wildcard signature gave -- by equality with the closest encloser the NSEC proof derived, or through
+    the child-of-closest-encloser name handed to the NSEC3 proof."""
+    R = "C14.wildce"
+    ctx.floor(R, 2)
+    bs = [b for p, b in F.bodies.items() if re.search(r"^dnssec::validator::utilities::check_not_exists_for_wildcard::\{closure#0\}$", p)]
+    if not ctx.anchor(R, "check_not_exists_for_wildcard", len(bs) == 1):
+        return
+    b = bs[0]
+    CE = ("field", ("arg", 1), 3)     # fourth parameter (captured in declaration order): the wildcard's closest encloser
+    sites = []
+    for bi in b.reachable_blocks():
+        if b.blocks[bi].get("c"):
+            continue
+        for st in b.blocks[bi]["s"]:
+            if st[0] == "=" and st[2][0] == "agg" and st[2][1][0] == "tuple" and len(st[2][2]) == 3:
+                first = const_value(b.term_of_operand(st[2][2][0]))
+                if first in (1, True):
+                    sites.append(bi)
+    if not ctx.anchor(R, "positive verdicts (true, state, ..) of check_not_exists_for_wildcard", len(sites) >= 2, b.where()):
+        return
+    def is_ce(t):
+        t = deep_strip(t)
+        return t == CE or (t[0] == "field" and t[1:] == CE[1:])
+    for bi in sites:
+        how = None
+        for l, r in _eq_facts(b, bi, F):
+            for x, y in ((l, r), (r, l)):
+                if is_ce(x) and _has_call(y, r"nsec::nsec_for_not_exists$"):
+                    how = "equal to the NSEC-derived closest encloser"
+        if how is None:
+            for s, o in outcome_facts(b, bi, F):
+                s = deep_strip(s)
+                for c in walk(s):
+                    if c[0] == "call" and c[1] and re.search(r"nsec::nsec3_for_not_exists_no_ce$", c[1]):
+                        a0 = c[3][0] if c[3] else None
+                        if a0 is not None and any(cc[0] == "call" and cc[1] and re.search(r"utilities::get_child_of_ce$", cc[1])
+                                                  and any(is_ce(x) for x in cc[3]) for cc in walk(a0)):
+                            how = "NSEC3 proof for the child of the closest encloser"
+        ctx.ob(R, b, "a positive verdict rests on the wildcard's closest encloser", how is not None,
+               "check_not_exists_for_wildcard answers `true` although the closest encloser that the wildcard RRSIG implies was "
+               "neither found *equal* to the closest encloser the NSEC proof derived nor used to form the name the NSEC3 proof "
+               "is about: a signed `*.<ce>` answer is accepted for a name whose real closest encloser lies deeper (the wildcard "
+               "does not apply there)", b.where(bi), detail=how)
+
+
+def rule_sigttl(ctx, F):
+    """A verdict (or a cached chain node) that rests on a verified signature is valid for no longer than
+    that signature: at every call site of check_sig_cached the lifetime of the same RRSIG record
+    (ttl_for_sig: record TTL, original TTL, time until expiration) is folded with `min` into the
+    validity that is returned / stored; ttl_for_sig itself looks at the expiration time and the clock."""
+    R = "C14.sigttl"
+    ctx.floor(R, 4)
+    tb = F.one_body(r"^dnssec::validator::utilities::ttl_for_sig$")
+    if ctx.anchor(R, "ttl_for_sig", tb):
+        has_exp = bool(tb.calls_matching(r"Rrsig::<.*>::expiration$"))
+        has_now = bool(tb.calls_matching(r"Timestamp::now$"))
+        mins = tb.calls_matching(r"core::cmp::(Ord::)?min(::<.*>)?$")
+        fed = False
+        for bb, t in mins:
+            for a in t["args"]:
+                tm = deep_strip(tb.term_of_operand(a))
+                if _has_call(tm, r"::expiration$") and _has_call(tm, r"Timestamp::now$"):
+                    fed = True
+        ctx.ob(R, tb, "the remaining lifetime (expiration - now) is folded into the signature TTL", has_exp and has_now and fed,
+               "ttl_for_sig does not take the minimum with the time left until the signature's expiration: data validated "
+               "with an RRSIG about to expire stays cached as secure for its whole TTL", tb.where())
+    sites = [(b, bb, t) for b, bb, t in F.callers_of(r"^dnssec::validator::group::Group::check_sig_cached$")
+             if "::test" not in b.path and "check_sig_cached" not in b.path]
+    if not ctx.anchor(R, "call sites of check_sig_cached", len(sites) >= 3):
+        return
+    for b, bb, t in sites:
+        sig_t = deep_strip(b.term_of_operand(t["args"][1]))
+        tcalls = b.calls_matching(r"utilities::ttl_for_sig$")
+        mins = b.calls_matching(r"core::cmp::(Ord::)?min(::<.*>)?$")
+        ok, why = False, "no ttl_for_sig call"
+        for tbb, tt in tcalls:
+            if not b.dominates(bb, tbb):
+                continue
+            arg_t = deep_strip(b.term_of_operand(tt["args"][0]))
+            if canon_nobb(arg_t) != canon_nobb(sig_t):
+                why = "ttl_for_sig is applied to another record than the one just verified"
+                continue
+            why = "the result of ttl_for_sig does not reach a min()"
+            for mbb, mt in mins:
+                if not b.dominates(tbb, mbb):
+                    continue
+                for a in mt["args"]:
+                    tm = b.term_of_operand(a)
+                    if any(s[0] == "call" and s[1] and re.search(r"utilities::ttl_for_sig$", s[1]) and call_bb_of(s) in (tbb, None)
+                           for s in walk(tm)):
+                        # the minimum has to lie on every way from here to a return
+                        rets = [i for i in b.reachable_blocks() if b.blocks[i]["t"]["k"] == "return"]
+                        holds, p = must_pass(b, tbb, rets, [mbb])
+                        if holds:
+                            ok = True
+                        else:
+                            why = "a path from ttl_for_sig to the return goes round the min(): " + fmt_path(p)
+        ctx.ob(R, b, "the verified signature's lifetime limits the validity that is returned", ok,
+               "%s: after check_sig_cached succeeded, %s -- the validity returned with the secure verdict (or stored in the chain "
+               "node) is not capped by the remaining lifetime of the RRSIG that was verified: the verdict outlives the signature "
+               "it rests on" % (b.path.split("::{closure")[0].split("::")[-1], why), b.where(bb))
